@@ -7,12 +7,16 @@ Obj/PropsSpec.lean (the map (instance, interface, property) -> value and the pre
 specification: Obj/PropsRefine.lean (`sdeclOf`, `AttrConsistent`, `Cfg.Sound`, `GoodHist`, `Sim`).
 
 All theorems quantify over ALL declarations `D` that elaborate (every DBusProperty binds to a property of an
-interface of the object) with consistent attribute names, ALL histories `h` of export / local assignment /
-remote Get / Set / GetAll in which every Set names an interface and carries a wire value, every instance,
-interface name and property name, and every configuration `cfg` of the code that is `Sound` (injective
-storage key + the repaired GetAll / Set behaviour); `Cfg.repaired` is sound (`repaired_sound`).  The
-`original_*` theorems are `decide`-checked witnesses that the code before the repairs (`Cfg.original`)
-violates the corresponding statement on a concrete input (the same inputs are in corpus/C17/).
+interface of the object) with consistent attribute names (`AttrConsistent`) and declared signatures among the
+12 basic types, `as`, `v` (`Modelled` - other container types are run through the shared codec model and only
+compared with the code), ALL histories `h` of export / local assignment / remote Get / Set / GetAll in which
+every Set names an interface and carries a wire value (`GoodHist`), every instance, interface name and property
+name, and every configuration `cfg` of the code that is `Sound` (injective storage key + the repaired GetAll /
+Set behaviour); `Cfg.repaired` is sound (`repaired_sound`).  Locally assigned values may be anything, including
+instances of marshal's wrapper classes; the replies are prescribed whenever the stored value `HasType` the
+declared type (a valid wrapper instance whose plain value has it counts).  The `original_*` theorems are
+`decide`-checked witnesses that the code before the repairs (`Cfg.original`) violates the corresponding
+statement on a concrete input (the same inputs are in corpus/C17/).
 -/
 import TxdbusModel.Obj.PropsRefine
 import TxdbusModel.Proofs.Obj.PropsGetAll
